@@ -1033,7 +1033,7 @@ def _sym_rvalue_env(fn, rv, env):
     return fn.sym_rvalue(rv)
 
 
-def decision_rows(fn, start=0, stop_blocks=None, cap=6000):
+def decision_rows(fn, start=0, stop_blocks=None, cap=6000, with_exit=False):
     """Path-sensitive decision table: rows (conds, ret_sym) where conds = tuple of (cond_sym, outcome);
     outcome is True/False for bool switches and ('is', variant) / ('not', (variants...)) for discriminant switches.
     Values of multiply-defined locals (materialised booleans, the return place) are resolved along each path."""
@@ -1084,8 +1084,8 @@ def decision_rows(fn, start=0, stop_blocks=None, cap=6000):
                         else:
                             conds.append((c, ("is", _variant_name(fn, e[1], e[2]))))
             ret = env.get(0)
-            key = (tuple((fmt_sym(c, maxdepth=14), str(o)) for c, o in conds), fmt_sym(ret, maxdepth=14) if ret else None)
-            rows[key] = (tuple(conds), ret)
+            key = (tuple((fmt_sym(c, maxdepth=14), str(o)) for c, o in conds), fmt_sym(ret, maxdepth=14) if ret else None) + ((ex,) if with_exit else ())
+            rows[key] = (tuple(conds), ret, ex) if with_exit else (tuple(conds), ret)
     return list(rows.values()), capped
 
 
